@@ -1350,13 +1350,40 @@ func checkParquet(c *core.Ctx) {
 	c.Decide(projArg != "" && projArg == reconArg && projPos < readerPos, "PQ", key+"/projection", fn.Decl.Pos(), 2, "the columns configured for reading are the ones reconstruction expects, set before the reader is created",
 		fmt.Sprintf("rows must be read with exactly the projected columns the reconstruction walks (MakeColumnReadRowFunc(%s) before NewReader, reconstructFuncOfSchemaFields(…, %s))", projArg, reconArg))
 	// usedFields[i] = d.fields[i].Name
+	// slot k of the projection gets the name of schema field k: `proj[k] = x.fields[k].Name`, or the element of a
+	// `for k, f := range x.fields` loop
 	namesOK := false
 	ast.Inspect(fn.Decl.Body, func(n ast.Node) bool {
-		if as, ok := n.(*ast.AssignStmt); ok && len(as.Lhs) == 1 && len(as.Rhs) == 1 {
-			if core.ExprStr(as.Lhs[0]) == projArg+"[i]" && strings.HasSuffix(core.ExprStr(as.Rhs[0]), ".fields[i].Name") {
-				namesOK = true
+		var k, elem, ranged string
+		var body *ast.BlockStmt
+		switch l := n.(type) {
+		case *ast.RangeStmt:
+			if l.Key == nil {
+				return true
+			}
+			k, ranged, body = core.ExprStr(l.Key), core.ExprStr(l.X), l.Body
+			if l.Value != nil {
+				elem = core.ExprStr(l.Value)
+			}
+		case *ast.ForStmt:
+			if as, ok := l.Init.(*ast.AssignStmt); ok && len(as.Lhs) == 1 {
+				k, body = core.ExprStr(as.Lhs[0]), l.Body
 			}
 		}
+		if body == nil || k == "" || k == "_" {
+			return true
+		}
+		ast.Inspect(body, func(m ast.Node) bool {
+			as, ok := m.(*ast.AssignStmt)
+			if !ok || len(as.Lhs) != 1 || len(as.Rhs) != 1 || core.ExprStr(as.Lhs[0]) != projArg+"["+k+"]" {
+				return true
+			}
+			rhs := core.ExprStr(as.Rhs[0])
+			if strings.HasSuffix(rhs, ".fields["+k+"].Name") || (elem != "" && elem != "_" && rhs == elem+".Name" && strings.HasSuffix(ranged, ".fields")) {
+				namesOK = true
+			}
+			return true
+		})
 		return true
 	})
 	c.Decide(namesOK, "PQ", key+"/field names", fn.Decl.Pos(), 1, "projected names are the schema's field names, position by position", "the projected column list must be the names of the schema fields, in the same positions")
